@@ -4,7 +4,9 @@ import json, os, re, subprocess, sys, time, shutil, collections, hashlib, concur
 
 VERIF = os.path.dirname(os.path.dirname(os.path.abspath(__file__)))
 SPEC = os.path.join(VERIF, "spec")
-HARNESS = os.path.join(VERIF, "harness")
+# development only: the mutant matrix (tools/matrix.py) points these at a scratch copy
+HARNESS = os.environ.get("VERIF_DEV_HARNESS", os.path.join(VERIF, "harness"))
+OUT = os.environ.get("VERIF_DEV_OUT", VERIF)
 BIN = os.path.join(HARNESS, "target", "debug", "mtharness")
 ALL_PROPS = ["C%02d" % i for i in range(1, 21)]
 TRACE_PROPS = ALL_PROPS + ["ALL"]
@@ -380,7 +382,7 @@ class Run:
     def report(self, rep):
         known = load_known()
         keys = {(f["property"], f["key"]): f for f in known.get("findings", [])}
-        os.makedirs(os.path.join(VERIF, "replays", self.prop), exist_ok=True)
+        os.makedirs(os.path.join(OUT, "replays", self.prop), exist_ok=True)
         seen_new, printed_known = {}, set()
         # crashes (abort / stack overflow / hang of the process) are C01's
         if self.prop == "C01":
@@ -403,7 +405,7 @@ class Run:
                 seen_new[key]["count"] += 1
                 continue
             h = m.get("_history") or self.history_of(m["shard"], rep[m["shard"]][0], m["line"])
-            path = os.path.join(VERIF, "replays", self.prop, hashlib.sha1((key + h.get("id", "")).encode()).hexdigest()[:12] + ".json")
+            path = os.path.join(OUT, "replays", self.prop, hashlib.sha1((key + h.get("id", "")).encode()).hexdigest()[:12] + ".json")
             json.dump({"property": self.prop, "key": key, "tier": self.tier, "seed": self.seed,
                        "mismatch": {k: v for k, v in m.items() if not k.startswith("_")}, "history": h},
                       open(path, "w"), indent=1)
@@ -440,8 +442,8 @@ class Run:
         ev = {"property_id": self.prop, "tier": self.tier, "seed": self.seed, "level": self.plan.get("level", "model_checking"),
               "coverage": cov, "assumptions": self.plan.get("assumptions", []), "wall_s": round(wall, 1),
               "violations": self.violations}
-        os.makedirs(os.path.join(VERIF, "evidence"), exist_ok=True)
-        json.dump(ev, open(os.path.join(VERIF, "evidence", self.prop + ".json"), "w"), indent=1)
+        os.makedirs(os.path.join(OUT, "evidence"), exist_ok=True)
+        json.dump(ev, open(os.path.join(OUT, "evidence", self.prop + ".json"), "w"), indent=1)
 
 def do_replay(prop, path, wd):
     from plans import PLANS
